@@ -1,10 +1,10 @@
 # property -> (title, Proofs imports, [(theorem name, proofs file, lemma, comment)], intro comment)
-SPEC['C01'] = ('Top-down require returns what a from-scratch build would return', ['Local', 'Local2'], [
+SPEC['C01'] = ('Top-down require returns what a from-scratch build would return', ['Local', 'Local2', 'History', 'ExecInv', 'ExecSession', 'Cert', 'Stable', 'Sim', 'C01Witness'], [
   ('C01_returns_cached_partial', 'Local2', 'make_consistent_returns_cached',
    'partial: whatever make_task_consistent returns is the cached output of the task, and the task is marked consistent for the session'),
   ('C01_reuse_needs_all_consistent_partial', 'Local', 'check_deps_inconsistent',
    'partial: a recorded resource dependency whose checker reports Inconsistent ends validation with "inconsistent" (no reuse)'),
-], 'PARTIAL. The full statement (incremental = from-scratch for every program of the class and every history) is decided by the correspondence run and the fresh-instance oracle; the staged proof (Validity, valid_replay) is not finished. See DESIGN.md section 6 C01.')
+], 'The full statement is proved for the class spelled out in the hypotheses of C01_incremental_equals_scratch (no target twice per execution, direct require of the generator before reading its product, exact write checkers, total stampers); programs outside that class (repeated targets, transitive generator requires, coarse write checkers) are decided by the correspondence run and the fresh-instance oracle.')
 SPEC['C02'] = ('Top-down build does no unnecessary work', ['Local', 'Local2', 'History', 'ExecInv', 'ExecSession', 'Justify'], [
   ('C02_at_most_once_per_session', 'ExecSession', 'session_td_at_most_once',
    'for ALL programs, checkers, fuel, stores satisfying the store invariants J (every store reachable by top-down histories does: C19_no_internal_error_all_histories) and ALL sessions of requires: the session event stream contains no task execution twice (also when the session ends in an abort)'),
@@ -78,7 +78,7 @@ SPEC['C18'] = ('Checker errors during validation never cause stale reuse and are
   ('C18_td_error', 'Local', 'check_deps_error', 'top-down: an erring resource checker ends validation with "inconsistent", pushes the error, never aborts'),
   ('C18_bu_error', 'Local', 'try_schedule_error', 'bottom-up: an erring checker pushes the error and schedules the task'),
 ], 'For arbitrary checker records and worlds.')
-SPEC['C19'] = ('An aborted build leaves the Pie instance usable and sound', ['Local', 'History', 'ExecInv', 'ExecSession'], [
+SPEC['C19'] = ('An aborted build leaves the Pie instance usable and sound', ['Local', 'History', 'ExecInv', 'ExecSession', 'Cert', 'Stable', 'Sim'], [
   ('C19_no_internal_error_all_histories', 'ExecSession', 'history_td_no_internal_error',
    'for ALL programs, checkers, fuel and ALL histories of top-down sessions and external changes from the empty store: every session result is a value, a user-level abort (task panic, cycle, hidden dependency, overlapping write) or out-of-fuel -- never one of the internal-invariant panics (ABug 1 reserved dependency checked, 2 consistent task without output, 3 require dependency missing, 5 edge without data) -- and the final store satisfies both store invariants (J), whatever aborted before. ABug 4 = model-only graph search fuel'),
   ('C19_abort_leaves_invariants', 'ExecSession', 'session_require_execs',
@@ -109,4 +109,47 @@ RAW['C08'] = [
     Rep RC OC sf (row (snd (run_history RC OC P always fuel init_world h)) t) (P t) [] o
         (kidsT (snd (run_history RC OC P always fuel init_world h)) t)""",
    'intros RC OC P sf always HS HNR. exact (history_td_exact_record RC OC P sf HS HNR always).'),
+]
+
+C01_BINDERS = '''  forall (gen : res -> option task) (wck : rcid -> Prop)
+         (RC : rcid -> rchecker) (OC : ocid -> ochecker) (P : task -> prog) (sf : rcid -> res -> content -> Z) (always : ocid),
+  (forall c env r v, rc_stamp (RC c) env r v = inl (sf c r v)) ->                 (* stampers are total and do not depend on the checker environment *)
+  (forall t, WFP gen wck t [] (P t)) ->                                           (* program class: no target twice per execution; a generated resource is read only after its generator was required; tasks write only their own products, through checkers in wck *)
+  (forall c env r v v', rc_check (RC c) env r v' (sf c r v) = Consistent -> rc_view (RC c) v' = rc_view (RC c) v) ->   (* a resource checker that accepts a new value shows the reader the same view: "outputs depend only on what their checkers observe" *)
+  (forall c env r v v', wck c -> rc_check (RC c) env r v' (sf c r v) = Consistent -> v' = v) ->                        (* write checkers accept only the written value *)
+  (forall c o o', oc_check (OC c) o' (oc_stamp (OC c) o) = true -> oc_view (OC c) o' = oc_view (OC c) o) ->            (* the same for output checkers *)
+'''
+RAW['C01'] = [
+  ('C01_incremental_equals_scratch',
+   'THE property: after ANY history h of top-down sessions and external changes from the empty store (every interleaving of edits, creations, deletions, overwrites of source and generated resources; aborted builds included), a session requiring ANY sequence of roots that returns on the incremental store returns exactly the outputs -- and leaves every resource with exactly the content -- that the same session produces on a fresh store holding the same resources (fresh_of), provided that from-scratch session returns too. For all programs of the class, all checkers satisfying the view conditions, all fuel. bug4 = model-only graph search fuel',
+   C01_BINDERS + """  forall fuel fuel0 h ops, td_hist h -> td_only ops ->
+  ~ Exists (Exists bug4) (fst (run_history RC OC P always fuel init_world h)) ->
+  let w := snd (run_history RC OC P always fuel init_world h) in
+  let ra := run_session RC OC P always fuel (new_session w) ops in
+  let rb := run_session RC OC P always fuel0 (new_session (fresh_of w)) ops in
+  Forall is_done (fst ra) -> Forall is_done (fst rb) ->
+  fst ra = fst rb /\\ forall r, get_content (snd ra) r = get_content (snd rb) r""",
+   'intros gen wck RC OC P sf always HS HWF HC HW HOC. exact (incremental_equals_scratch gen wck RC OC P sf HS HWF HC HW HOC always).'),
+  ('C01_simulation',
+   'the induction behind it: make_task_consistent on the incremental store (run A: K = every recorded dependency list is a complete run of its program, C08) and on a from-scratch store (run B) started in Sim-related worlds (same resource contents, same consistent set, same outputs of consistent tasks) return the same output and end in Sim-related worlds -- below any execution stacks, for any two fuels',
+   C01_BINDERS.replace(' (always : ocid),', ',') + """  forall f, SIMMC RC OC P sf f""",
+   'intros gen wck RC OC P sf HS HWF HC HW HOC. exact (sim_mc gen wck RC OC P sf HS HWF HC HW HOC).'),
+  ('C01_hypotheses_satisfiable',
+   'non-vacuity: exact checkers and a generator/consumer pair of tasks satisfy every hypothesis, and the history [set r1 := 1; build; set r1 := 2] with the session [require consumer] satisfies every premise',
+   """  td_hist hx /\\ td_only opsx /\\ ~ Exists (Exists bug4) (fst (run_history RCx OCx Px 0 50 init_world hx)) /\\
+  Forall is_done (fst (run_session RCx OCx Px 0 50 (new_session (snd (run_history RCx OCx Px 0 50 init_world hx))) opsx)) /\\
+  Forall is_done (fst (run_session RCx OCx Px 0 50 (new_session (fresh_of (snd (run_history RCx OCx Px 0 50 init_world hx)))) opsx))""",
+   'exact C01_premises.'),
+  ('C01_witness_does_real_work',
+   'in that instance the incremental session re-executes the generator and then the consumer and returns the changed result (211 after 207)',
+   """  fst (run_session RCx OCx Px 0 50 (new_session (snd (run_history RCx OCx Px 0 50 init_world hx))) opsx) = [RDone (Some 211%Z)] /\\
+  execs (rev (trace (snd (run_session RCx OCx Px 0 50 (new_session (snd (run_history RCx OCx Px 0 50 init_world hx))) opsx)))) = [1; 0] /\\
+  fst (run_history RCx OCx Px 0 50 init_world hx) = [[]; [RDone (Some 207%Z)]; []]""",
+   'exact C01_nontrivial.'),
+]
+
+RAW['C19'] = [
+  ('C19_later_builds_equal_scratch',
+   'the C01 theorem, restated: its histories h contain sessions that ended in ANY abort (run_session stops at the abort and leaves the store as the unwinding left it; td_hist does not restrict results); a later session that returns agrees with a from-scratch session on the then-current resources',
+   RAW['C01'][0][2], RAW['C01'][0][3]),
 ]
